@@ -226,6 +226,28 @@ def run_C20(ctx, E):
     if os.environ.get("C20_SKIP_TRACE") is None: stage_record_trace(ctx, E, "offsets", "C20_Trace", "C20_Trace.cfg", heap="8g")
 
 
+def run_C17(ctx, E):
+    # MC: the selection loop as a state machine over every small input; its initial states are the S->I inputs
+    cases = os.path.join(ctx.work, "c17_inputs.ndjson")
+    for name in (("quick",) if ctx.tier == "quick" else ("thorough", "thorough2")):
+        res = E.run_tlc(ctx.work, "mc_" + name, "C17_MC", "C17_MC_%s.cfg" % name, env={"OUTFILE": cases}, timeout=2400)
+        E.tlc_ok(res, "mc_" + name)
+        ctx.add_tlc(res)
+        E.log("mc_%s: TLC %d distinct states (%.0fs)" % (name, res["distinct"], res["wall"]))
+    stage_expect_violation(ctx, E, "asbuilt", "C17_MC", "C17_MC_asbuilt.cfg",
+                           "PropertyHolds (loop before fix KF-C17-1: each ban / filter checked once, in order)")
+    # the real function is run on every enumerated input (+ random / adversarial ones); TLC judges its real output
+    stage_record_trace(ctx, E, "barcodes", "C17_Trace", "C17_Trace.cfg", heap="24g", env={"C17_CASES": cases}, timeout=3000)
+    # orders 9..11 of the De Bruijn sequence: counted by the harness only (not spec-decided)
+    big = os.path.join(ctx.work, "c17_big.ndjson")
+    with open(big, "w") as f:
+        f.write(json.dumps({"maxN": T(ctx, 9, 11)}) + "\n")
+    summ_path = os.path.join(ctx.work, "c17_big.json")
+    E.run_driver(ctx.drv, ["replay", "C17", big, summ_path])
+    summ = json.load(open(summ_path))
+    ctx.absorb_summary("harness-side De Bruijn orders 9..%d (not spec-decided)" % T(ctx, 9, 11), summ)
+
+
 def run_C10(ctx, E):
     ctx.exhaustive = True
     for e in (("e1", "e2", "e4") if ctx.tier == "quick" else ("e1", "e2", "e3", "e4")):
@@ -243,6 +265,21 @@ _seqhash_note = ("trusted: TLC, community modules; the digest is uninterpreted i
                  "in the replayer by a from-scratch BLAKE3 transcription pinned by the official test vectors; "
                  "double-stranded inputs containing Z or (under type DNA) U are outside the strand clause and not replayed")
 PROPS = {
+    "C17": dict(run=run_C17,
+                technique="TLC model checking of the barcode selection loop (Barcodes.tla, one action per attempt) over "
+                          "every small input with the property as invariant; the real function is run on every "
+                          "enumerated input and its output judged by TLC (C17_Trace), plus random/adversarial inputs",
+                level_text="the loop model is checked for orders 2-3, lengths 3-5 (quick) / 2-8 (thorough), every set of "
+                           "<= 2 banned words of length 2 (quick) / 2-3 (thorough) and <= 1 of three filters: ListOK "
+                           "(length, substring, no shared n-mer, no ban, no reverse complement of a ban, filters accept) "
+                           "holds for the repaired loop and TLC finds the adversarial inputs for the loop as first built; "
+                           "the real function runs on each of those inputs (3288 / 52000) and on random inputs with orders "
+                           "2..7 (8), lengths n..60, 0..5 bans of length 2..8 taken from the sequence itself, 0..3 "
+                           "filters; TLC checks IsDeBruijn for orders 1..7 (8) and ListOK for every returned list",
+                level_note="trusted: TLC, community modules, the filter predicates (written twice: Go and TLA+), the "
+                           "harness's search for each barcode's offset (verified by TLC); De Bruijn orders above 8 are "
+                           "counted by the harness only",
+                rule="I->S: one event per call of the real function (TLC-enumerated inputs first, then random)"),
     "C20": dict(run=run_C20,
                 technique="TLC model checking of the Uniprot parser loop with two channels and two consumer disciplines "
                           "(safety + termination, three loop variants); every scenario replayed on uniprot.Parse with "
